@@ -156,3 +156,26 @@ class Recorder:
         self.reads.append((self.pos, n, len(r)))
         self.pos += len(r)
         return r
+
+
+class BufferedRecorder(Recorder):
+    """The same in front of a real io.BufferedReader: what `sock.makefile('rb')` or `open(path, 'rb')` gives a
+    caller has more than read() - peek(), read1(), readinto() - and the library gets to see all of it."""
+
+    def peek(self, n=0):
+        return self.inner.peek(n)
+
+    def read1(self, n=-1):
+        r = self.inner.read1(n)
+        self.reads.append((self.pos, n, len(r)))
+        self.pos += len(r)
+        return r
+
+    def readinto(self, b):
+        k = self.inner.readinto(b)
+        self.reads.append((self.pos, len(b), k))
+        self.pos += k or 0
+        return k
+
+    def readable(self):
+        return True
